@@ -334,7 +334,19 @@ def F13():
     return before == after, f"merge rejected ({err}) but the target library changed: {len(before)} -> {len(after)} nuclides (those merged before the conflict was found stay)"
 
 
-ALL = dict(F10=F10, F12=F12, F17=F17, F18=F18, F19=F19, F11=F11, F13=F13, F1=F1, F2=F2, F3=F3, F4=F4, F5=F5, F6=F6, F7=F7, F8=F8, F9=F9, F14=F14)
+def F20():
+    from armi.reactor import grids
+
+    g = grids.CartesianGrid.fromRectangle(1.0, 1.0)
+    lab = g.getLabel((-1, 2, 0))
+    try:
+        back = grids.locatorLabelToIndices(lab)
+    except ValueError as e:
+        return False, f"Cartesian cell (-1, 2, 0) has label {lab!r}, which does not parse back: ValueError({e})"
+    return tuple(back) == (-1, 2, 0), f"label {lab!r} parses back to {back}"
+
+
+ALL = dict(F10=F10, F12=F12, F17=F17, F18=F18, F19=F19, F11=F11, F13=F13, F20=F20, F1=F1, F2=F2, F3=F3, F4=F4, F5=F5, F6=F6, F7=F7, F8=F8, F9=F9, F14=F14)
 
 if __name__ == "__main__":
     sys.path.insert(0, os.getcwd())
